@@ -330,6 +330,11 @@ def gen_hmac_key(crypto, w):
     w(f"def hexCharOk (c : Nat) : Bool := {c_to_lean(m.group('ok'))}")
     be = m.group("byte").replace("ptr[h+1]", "lo").replace("ptr[h]", "hi")
     w(f"def hexByte (hi lo : Nat) : Nat := ({w32(be, funcs={'from_hex': 'fromHex'})}) % 256")
+    body = function_body(crypto, r"void\s+key::read_from_file\s*\(\s*std::string\s+const\s*&\s*file_name\s*\)\s*\{")
+    m = need(re.search(r"if\s*\(\s*size\s*==\s*0\s*\)\s*\{\s*throw\s+booster::runtime_error\([^;]*\)\s*;\s*\}.*"
+                       r"int\s+i\s*;\s*for\s*\(\s*i\s*=\s*buf_size\s*-\s*1\s*;\s*i\s*>=\s*0\s*;\s*i--\s*\)\s*\{\s*if\s*\((?P<ws>[^{};]+)\)\s*continue\s*;\s*break\s*;\s*\}"
+                       r"\s*size_t\s+real_size\s*=\s*i\s*\+\s*1\s*;\s*set_hex\(buf,real_size\)\s*;", body, re.S), "key::read_from_file: shape")
+    w(f"def keyFileWs (c : Nat) : Bool := {c_to_lean(m.group('ws').replace('buf[i]', 'c'))}")
     w("")
 
 
